@@ -77,7 +77,7 @@ def interpolate(input, coord, kernel="spline", width=2, param=1):
 
     # width and param are real numbers: integer-typed coordinates
     # must not truncate them.
-    dtype = np.result_type(coord.dtype, np.float32)
+    dtype = coord.dtype if coord.dtype.kind == "f" else np.float64
     if np.isscalar(param):
         param = xp.array([param] * ndim, dtype)
     else:
@@ -164,7 +164,7 @@ def gridding(input, coord, shape, kernel="spline", width=2, param=1):
 
     # width and param are real numbers: integer-typed coordinates
     # must not truncate them.
-    dtype = np.result_type(coord.dtype, np.float32)
+    dtype = coord.dtype if coord.dtype.kind == "f" else np.float64
     if np.isscalar(param):
         param = xp.array([param] * ndim, dtype)
     else:
